@@ -225,11 +225,22 @@ def _class_cm_shape(cd):
         if tg is None or not (isinstance(tg, ast.Attribute) and isinstance(tg.value, ast.Name) and tg.value.id == self_i) or not (isinstance(s.value, ast.Name) and s.value.id in params) or tg.attr in attr_of:
             return None
         attr_of[tg.attr] = s.value.id
-    # __enter__: nothing happens, nothing (or None) is returned
-    for s in enter.body:
-        if _is_doc(s) or isinstance(s, ast.Pass) or (isinstance(s, ast.Return) and (s.value is None or (isinstance(s.value, ast.Constant) and s.value.value is None))):
+    # __enter__: plain statements (they run before the ``try``, like the statements before the ``yield`` of a generator
+    # context manager), nothing (or None) is returned
+    enter_body = []
+    for i_, s in enumerate(enter.body):
+        if _is_doc(s) or isinstance(s, ast.Pass):
             continue
+        if isinstance(s, ast.Return) and (s.value is None or (isinstance(s.value, ast.Constant) and s.value.value is None)) and i_ == len(enter.body) - 1:
+            continue
+        if not isinstance(s, (ast.Expr, ast.Assign)) or any(isinstance(sub, (ast.Return, ast.Yield, ast.YieldFrom, ast.Await, ast.FunctionDef, ast.Lambda)) for sub in ast.walk(s)):
+            return None
+        if isinstance(s, ast.Assign) and not all(isinstance(t_, ast.Name) for t_ in s.targets):
+            return None
+        enter_body.append(s)
+    if enter.args.vararg or enter.args.kwarg or len(enter.args.args) != 1:
         return None
+    self_n = enter.args.args[0].arg
     ea = exit_.args
     self_e = ea.args[0].arg
     exc_names = set(x.arg for x in ea.args[1:]) | ({ea.vararg.arg} if ea.vararg else set())
@@ -262,8 +273,14 @@ def _class_cm_shape(cd):
     fin = [_Sub().visit(copy.deepcopy(s)) for s in body]
     if not _Sub.ok:
         return None
+    pre = []
+    if enter_body:
+        self_e = self_n
+        pre = [_Sub().visit(copy.deepcopy(s)) for s in enter_body]
+        if not _Sub.ok:
+            return None
     fn = ast.FunctionDef(name=cd.name, args=ast.arguments(posonlyargs=[], args=[ast.arg(arg=p) for p in params], vararg=None, kwonlyargs=[], kw_defaults=[], kwarg=None, defaults=list(a.defaults)), body=fin or [ast.Pass()], decorator_list=[], returns=None, type_comment=None, lineno=cd.lineno, col_offset=0)
-    return fn, ([], None, fin, [])
+    return fn, (pre, None, fin, [])
 
 
 class _Rename(ast.NodeTransformer):
@@ -509,6 +526,34 @@ class Inliner:
             return [st]
         if isinstance(st, ast.ClassDef):
             return [st]
+        # ``f(a, helper(x))`` as a statement / assigned / returned: the helper call is given a name of its own first
+        # (``t = helper(x); f(a, t)``) when everything evaluated before it is free of calls, so that the order of
+        # effects stays the same
+        if isinstance(st, (ast.Expr, ast.Assign, ast.Return)) and isinstance(getattr(st, "value", None), ast.Call) and depth < MAX_DEPTH and self._match(st.value, cls, caller_async) is None:
+            outer = st.value
+            simple = lambda e: not any(isinstance(x, (ast.Call, ast.Await, ast.Yield, ast.YieldFrom, ast.NamedExpr, ast.Lambda, ast.GeneratorExp, ast.ListComp, ast.SetComp, ast.DictComp, ast.Subscript)) for x in ast.walk(e))
+            if simple(outer.func) and not any(isinstance(a_, ast.Starred) for a_ in outer.args) and all(kw.arg is not None for kw in outer.keywords):
+                slots = [("a", i_) for i_ in range(len(outer.args))] + [("k", i_) for i_ in range(len(outer.keywords))]
+                exprs = list(outer.args) + [kw.value for kw in outer.keywords]
+                for j_, e_ in enumerate(exprs):
+                    if self._match(e_, cls, caller_async) is not None and all(simple(x) for x in exprs[:j_]):
+                        self.counter += 1
+                        tmp = "_arg__i%d" % self.counter
+                        first = ast.copy_location(ast.Assign(targets=[ast.Name(id=tmp, ctx=ast.Store())], value=e_), st)
+                        new_call = copy.copy(outer)
+                        new_call.args = list(outer.args)
+                        new_call.keywords = [copy.copy(kw) for kw in outer.keywords]
+                        if slots[j_][0] == "a":
+                            new_call.args[slots[j_][1]] = ast.Name(id=tmp, ctx=ast.Load())
+                        else:
+                            new_call.keywords[slots[j_][1]].value = ast.Name(id=tmp, ctx=ast.Load())
+                        new_st = copy.copy(st)
+                        new_st.value = new_call
+                        ast.fix_missing_locations(first)
+                        ast.fix_missing_locations(ast.copy_location(new_st, st))
+                        return self._rewrite_stmt(first, cls, caller_async, caller_name, depth) + self._rewrite_stmt(new_st, cls, caller_async, caller_name, depth)
+                    if not simple(e_):
+                        break
         m = None
         kind = None
         if isinstance(st, (ast.Assign, ast.AnnAssign)) and getattr(st, "value", None) is not None:
